@@ -23,7 +23,7 @@ RULE = ('(a) synthetic pairs of force fields: 1-4 residue types, from-blocks of 
         'sorted or shuffled, residue numbers with gaps. (b) charmm peptides (1-6 residues, termini modifications) '
         'through RepairGraph + CanonicalizeModifications and the shipped charmm->martini3001/martini22/elnedyn22 '
         'mappings, checked with invariants only. Non-trivial = >= 2 placements and >= 1 inter-placement input bond. '
-        'distinct = distinct (force fields, molecule) hashes. Also: two-residue (multi-residue) mappings whose pattern and target block span a bonded pair of residues that have no mapping of their own; atoms renamed upstream that are matched on _old_atomname; residues that share their number and differ in the insertion code.')
+        'distinct = distinct (force fields, molecule) hashes. Also: two-residue (multi-residue) mappings whose pattern and target block span a bonded pair of residues that have no mapping of their own; atoms renamed upstream that are matched on _old_atomname; residues that share their number and differ in the insertion code; a second (alternative) mapping for one residue type on the same atoms.')
 ASSUMPTIONS = ['when placements overlap or tie on their lowest key the order/attributes are ambiguous: only counts and the '
                'inconsistent-data warning are checked',
                'no demand on attributes other than atomname, resname, resid, _old_resid, graph, mapping_weights',
@@ -163,6 +163,15 @@ def gen_case(rnd):
            'tag': rnd.randrange(10 ** 9)}
     if pair:
         out['pair'] = pair
+    free = [r for r in sorted(resdefs) if not (pair and r in (pair['x'], pair['y']))]
+    if free and rnd.random() < 0.15:
+        # a second mapping for one residue type (an alternative representation from an extra mapping directory): it fits wherever the
+        # first one fits, on exactly the same atoms (or on some of them); both target blocks are due, and the overlap is reported
+        of = rnd.choice(free)
+        mapped = sorted(resdefs[of]['mp'])
+        chosen = mapped if rnd.random() < 0.6 else rnd.sample(mapped, rnd.randint(1, len(mapped)))
+        nb = rnd.randint(1, 2)
+        out['alt'] = {'of': of, 'bnames': ['Q%d' % i for i in range(nb)], 'mp': {a: {'Q%d' % rnd.randrange(nb): 1} for a in chosen}}
     return out
 
 
@@ -198,6 +207,19 @@ def build(case):
         if not (case.get('pair') and name in (case['pair']['x'], case['pair']['y'])):
             mappings[name] = Mapping(ba, bb, {a: dict(d) for a, d in rd['mp'].items()}, {}, ff_from=ffa, ff_to=ffb, extra=(),
                                      names=(name,))
+    if case.get('alt'):
+        alt = case['alt']
+        bb = Block(force_field=ffb)
+        bb.name = alt['of'] + 'alt'
+        bb.nrexcl = 1
+        for i, b_ in enumerate(alt['bnames']):
+            bb.add_atom({'atomname': b_, 'resname': alt['of'], 'resid': 1, 'atype': 'Q%d' % i, 'charge_group': i + 1, 'charge': 0.0})
+        for x, y in zip(alt['bnames'], alt['bnames'][1:]):
+            bb.add_edge(x, y)
+            bb.add_interaction('bonds', [x, y], ['1', '0.3', '100'])
+        ffb.blocks[bb.name] = bb
+        mappings[bb.name] = Mapping(ffa.blocks[alt['of']], bb, {a: dict(d) for a, d in alt['mp'].items()}, {}, ff_from=ffa, ff_to=ffb,
+                                    extra=(), names=(alt['of'],))
     if case.get('pair'):
         pr = case['pair']
         ba = Block(force_field=ffa)
@@ -255,7 +277,11 @@ def placements_of(case, mol):
     import networkx as nx
     out = []
     pair = case.get('pair')
-    for rname, rd in sorted(case['resdefs'].items()):
+    defs = [(rname, rd, rname) for rname, rd in sorted(case['resdefs'].items())]
+    if case.get('alt'):
+        of = case['alt']['of']
+        defs.append(('+ALT', dict(case['resdefs'][of], mp=case['alt']['mp']), of))
+    for label, rd, rname in defs:
         if pair and rname in (pair['x'], pair['y']):
             continue
         P = nx.Graph()
@@ -269,7 +295,7 @@ def placements_of(case, mol):
         def edge_ok(g1, g2, p1, p2):
             return res_id(mol, g1) == res_id(mol, g2)
         for m in match.induced_isos(mol, P, node_ok, edge_ok):
-            out.append((min(m.values()), rname, dict(m)))
+            out.append((min(m.values()), label, dict(m)))
     if pair:
         P = nx.Graph()
         for loc, rname in enumerate((pair['x'], pair['y'])):
@@ -305,7 +331,11 @@ def expected(case, mol):
     for pi, (_, rname, atoms) in enumerate(pl):
         parts = [(rname, '')] if rname != '+PAIR' else [(case['pair']['x'], 'x:'), (case['pair']['y'], 'y:')]
         for loc, (rn, pre) in enumerate(parts):
-            rd = case['resdefs'][rn]
+            if rn == '+ALT':
+                rd = {'bnames': case['alt']['bnames'], 'mp': case['alt']['mp']}
+                rn = case['alt']['of']
+            else:
+                rd = case['resdefs'][rn]
             resid += 1
             for b in rd['bnames']:
                 cons = {atoms[pre + a]: w[b] for a, w in rd['mp'].items() if b in w}
